@@ -8,6 +8,7 @@
 # cheap and it removes all state-copying machinery.
 import json, time, sys, os, itertools
 import z3
+import time
 
 MASK = {8: 0xff, 16: 0xffff, 32: 0xffffffff, 64: 0xffffffffffffffff}
 
@@ -606,6 +607,9 @@ class Engine:
         while self.worklist:
             if self.stats['paths'] >= max_paths:
                 raise BoundExceeded('max_paths')
+            if getattr(self, 'deadline', None) is not None and time.time() > self.deadline:
+                self.budget_hit = len(self.worklist)      # paths left unexplored: the caller reports the reduced coverage
+                break
             self.trace = list(self.worklist.pop())
             self.reset_path_state()
             self.init_globals()
@@ -1247,6 +1251,25 @@ class Engine:
             for j in range(D):
                 darr[j] = ByteOf(tag[1], j, D)
             return n
+        if isinstance(tag, tuple) and tag[0] == 'bigbytes' and concrete(z3.simplify(nn)) is None:
+            # a big.Int encoding of data-dependent length copied in some other way than the left-padding idiom: a late
+            # case split on the byte length (W, W-1, W-2, 1, 0 are explored; other lengths are cut - a stated bound)
+            # keeps offsets and counts concrete instead of producing byte-level muxes over mixed Int/BV terms
+            W_, Lb = tag[2], tag[3]
+            Ls = [L_ for L_ in (W_, W_ - 1, W_ - 2, 1, 0) if 0 <= L_ <= W_]
+            L_ = Ls[self.choose(len(Ls), 'byteslen-late')]
+            self.assume(Lb == z3.BitVecVal(L_, 64))
+            if not self.feasible(z3.BoolVal(True)):
+                raise PathAbort()
+            self.stats['late_length_splits'] = self.stats.get('late_length_splits', 0) + 1
+            subst = lambda t: concrete(z3.simplify(z3.substitute(tobv(t, 64), (Lb, z3.BitVecVal(L_, 64)))))
+            d0, s0, n0 = subst(dst.off), subst(src.off), subst(n)
+            if d0 is None or s0 is None or n0 is None:
+                raise Unsupported('copy of a variable-length big.Int encoding with offsets that do not depend on its length only')
+            for i in range(n0):
+                if d0 + i < len(darr) and s0 + i < len(sv):
+                    darr[d0 + i] = sv[s0 + i]
+            return n0
         for j in range(len(darr)):
             jj = z3.BitVecVal(j, 64)
             inr = z3.simplify(z3.And(z3.ULE(doff, jj), z3.ULT(jj - doff, nn)))
